@@ -785,11 +785,15 @@ func (r *runningStep) runOnInput() {
 	case loopData, ok := <-r.executeInput:
 		if !ok {
 			r.logger.Debugf("aborted waiting for result in foreach")
+			r.closedEarly(StageIDOutputs, true)
 			return
 		}
 		r.processInput(loopData)
 	case <-r.ctx.Done():
+		// Closed while waiting for the items. Like every other way a step ends, this must be reported:
+		// the execute stage failed, the step completed as closed and will not produce outputs.
 		r.logger.Debugf("context done")
+		r.closedEarly(StageIDOutputs, true)
 		return
 	}
 }
